@@ -54,3 +54,14 @@ package cmd
 //@   noframe
 //@   nosafety // cobra/flag plumbing with many callees outside the contract set: panic-freedom not claimed
 //@   ensures @failure-leaves-file implies(cmdError != nil, targetState == old(targetState))
+
+// utils.go: the formats chosen automatically are those named by the FIRST file's extension (C19)
+//@ func initCommand
+//@   props C19
+//@   nosafety
+//@   noframe
+//@   at FormatStringFromFilename: assert @format-from-the-first-file {C19} arg0 == ite(len(args) > 0, args[0], "")
+
+//@ func isAutomaticOutputFormat
+//@   props C19
+//@   modifies \nothing
